@@ -129,6 +129,11 @@ func (m *MessageStore) ProcessMessageQueueForDevicePK(ctx context.Context, devic
 			// let's try processing one message from the queue.
 			// if it succeeds, the whole queue should be added for processing.
 			m.messagesQueue.Add(next)
+
+			// the probe may have been sealed before the announced chain key
+			// (never openable here); the messages parked behind it must not
+			// wait for it, nor for a later message of this device
+			m.processDeviceMessagesInQueue(device)
 		}
 	}
 	m.muDeviceCaches.Unlock()
